@@ -11,10 +11,12 @@ vars == <<sh, l>>
 CheckCentroid(e,g) ==
   IF IsEmptyG(g) THEN (IF e.cempty THEN "ok" ELSE "centroid-nonempty-for-empty")
   ELSE IF e.cempty THEN "centroid-empty"
+  ELSE IF ~(InSpan(g, 1, e.cx) /\ InSpan(g, 2, e.cy)) THEN "centroid-outside-the-span-of-the-vertices"
   ELSE LET c == IF Len(g.areas) > 0 THEN ArealCentroid(g)
                 ELSE IF Len(g.lines) > 0 THEN (IF LinealExact(g) THEN LinealCentroid(g) ELSE <<0,0,0>>)
                 ELSE PointCentroid(g) IN
-       IF c[3] = 0 THEN "ok"
+       IF c[3] = 0 THEN (IF Len(g.areas) = 0 /\ Len(g.lines) > 0 /\ ~(LinealBracket(g, 1, e.cx) /\ LinealBracket(g, 2, e.cy))
+                         THEN "centroid-outside-bracket" ELSE "ok")
        ELSE IF CNear(e.cx, c[1], c[3]) /\ CNear(e.cy, c[2], c[3]) THEN "ok" ELSE "centroid-value"
 
 \* A valid triangle k ulps wide (fam_sliver.go): exact centroid (a + k*ulp/3, y0 + h/3); the event carries the
